@@ -472,48 +472,6 @@ Proof.
   cbn [filter]. fold (ne_labels (nn d)). fold (ne_labels d). rewrite ne_labels_nn. reflexivity.
 Qed.
 
-(* ------------------------------------------------------------------ lower-casing *)
-Variable Hlow_dot : forall a b, to_lower o (a ++ 46 :: b) = to_lower o a ++ 46 :: to_lower o b.
-Variable Hlow_nodot : forall a, nodot a -> nodot (to_lower o a).
-
-Lemma lower_joinb : forall ls, to_lower o (joinb 46 ls) = joinb 46 (map (to_lower o) ls).
-Proof.
-  induction ls as [|x t IH]; [reflexivity|]. destruct t as [|y t']; [reflexivity|].
-  change (joinb 46 (x :: y :: t')) with (x ++ 46 :: joinb 46 (y :: t')).
-  rewrite Hlow_dot, IH. reflexivity.
-Qed.
-
-Lemma labels_lower : forall d, labels (to_lower o d) = map (to_lower o) (labels d).
-Proof.
-  intros d. rewrite <- (join_labels d) at 1. rewrite lower_joinb. apply labels_join.
-  - pose proof (labels_ne d). destruct (labels d); [congruence|discriminate].
-  - apply Forall_map. eapply Forall_impl; [|apply labels_nodot]. intros a Ha. apply Hlow_nodot. assumption.
-Qed.
-
-Lemma flat_map_map : forall {A B C} (f : A -> B) (g : B -> list C) l, flat_map g (map f l) = flat_map (fun x => g (f x)) l.
-Proof. induction l; [reflexivity|]. cbn [map flat_map]. rewrite IHl. reflexivity. Qed.
-
-Lemma putdom_lower_nn : forall d, putdom (to_lower o (nn d)) = putdom (to_lower o d).
-Proof.
-  intros d. unfold putdom. fold (labels (to_lower o (nn d))). fold (labels (to_lower o d)).
-  rewrite !labels_lower, !flat_map_map.
-  rewrite <- (flat_map_ne _ (labels (nn d))) by reflexivity.
-  rewrite <- (flat_map_ne _ (labels d)) by reflexivity.
-  fold (ne_labels (nn d)). fold (ne_labels d). rewrite ne_labels_nn. reflexivity.
-Qed.
-
-Lemma putrevdom_lower_nn : forall d, putrevdom (to_lower o (nn d)) = putrevdom (to_lower o d).
-Proof.
-  intros d. unfold putrevdom. fold (labels (to_lower o (nn d))). fold (labels (to_lower o d)).
-  rewrite !labels_lower, <- !map_rev, !flat_map_map.
-  rewrite <- (flat_map_rev_ne _ (labels (nn d))) by reflexivity.
-  rewrite <- (flat_map_rev_ne _ (labels d)) by reflexivity.
-  fold (ne_labels (nn d)). fold (ne_labels d). rewrite ne_labels_nn. reflexivity.
-Qed.
-
-Lemma key_nn : forall v2 d lo, domainkey o v2 (nn d) lo = domainkey o v2 d lo.
-Proof. intros. unfold domainkey. rewrite putdom_lower_nn, putrevdom_lower_nn. reflexivity. Qed.
-
 (* ------------------------------------------------------------------ wildcard owners *)
 Lemma is_wild_spec : forall d, is_wild d = true -> d = 42 :: 46 :: skipn 2 d.
 Proof.
@@ -560,9 +518,57 @@ Lemma skipn2_nn_wild : forall d, is_wild d = true -> is_wild (nn d) = true ->
 Proof.
   intros d H1 H2. pose proof (ne_labels_nn d) as E.
   rewrite (is_wild_spec _ H1) in E at 2. rewrite (is_wild_spec _ H2) in E at 1.
-  unfold ne_labels in E. rewrite !(labels_cons [42]) in E by reflexivity.
-  cbn [filter nonempty] in E. inversion E. reflexivity.
+  unfold ne_labels in E.
+  pose proof (labels_cons [42] (skipn 2 (nn d)) eq_refl) as A1. cbn [app] in A1.
+  pose proof (labels_cons [42] (skipn 2 d) eq_refl) as A2. cbn [app] in A2.
+  rewrite A1, A2 in E. cbn [filter nonempty] in E. unfold ne_labels. congruence.
 Qed.
+
+End Names.
+
+Section Lower.
+Variable o : toracles.
+(* ------------------------------------------------------------------ lower-casing *)
+Variable Hlow_dot : forall a b, to_lower o (a ++ 46 :: b) = to_lower o a ++ 46 :: to_lower o b.
+Variable Hlow_nodot : forall a, nodot a -> nodot (to_lower o a).
+
+Lemma lower_joinb : forall ls, to_lower o (joinb 46 ls) = joinb 46 (map (to_lower o) ls).
+Proof.
+  induction ls as [|x t IH]; [reflexivity|]. destruct t as [|y t']; [reflexivity|].
+  change (joinb 46 (x :: y :: t')) with (x ++ 46 :: joinb 46 (y :: t')).
+  rewrite Hlow_dot, IH. reflexivity.
+Qed.
+
+Lemma labels_lower : forall d, labels (to_lower o d) = map (to_lower o) (labels d).
+Proof.
+  intros d. rewrite <- (join_labels d) at 1. rewrite lower_joinb. apply labels_join.
+  - pose proof (labels_ne d). destruct (labels d); [congruence|discriminate].
+  - apply Forall_map. eapply Forall_impl; [|apply labels_nodot]. intros a Ha. apply Hlow_nodot. assumption.
+Qed.
+
+Lemma flat_map_map : forall {A B C} (f : A -> B) (g : B -> list C) l, flat_map g (map f l) = flat_map (fun x => g (f x)) l.
+Proof. induction l; [reflexivity|]. cbn [map flat_map]. rewrite IHl. reflexivity. Qed.
+
+Lemma putdom_lower_nn : forall d, putdom (to_lower o (nn d)) = putdom (to_lower o d).
+Proof.
+  intros d. unfold putdom. fold (labels (to_lower o (nn d))). fold (labels (to_lower o d)).
+  rewrite !labels_lower, !flat_map_map.
+  rewrite <- (flat_map_ne _ (labels (nn d))) by reflexivity.
+  rewrite <- (flat_map_ne _ (labels d)) by reflexivity.
+  fold (ne_labels (nn d)). fold (ne_labels d). rewrite ne_labels_nn. reflexivity.
+Qed.
+
+Lemma putrevdom_lower_nn : forall d, putrevdom (to_lower o (nn d)) = putrevdom (to_lower o d).
+Proof.
+  intros d. unfold putrevdom. fold (labels (to_lower o (nn d))). fold (labels (to_lower o d)).
+  rewrite !labels_lower, <- !map_rev, !flat_map_map.
+  rewrite <- (flat_map_rev_ne _ (labels (nn d))) by reflexivity.
+  rewrite <- (flat_map_rev_ne _ (labels d)) by reflexivity.
+  fold (ne_labels (nn d)). fold (ne_labels d). rewrite ne_labels_nn. reflexivity.
+Qed.
+
+Lemma key_nn : forall v2 d lo, domainkey o v2 (nn d) lo = domainkey o v2 d lo.
+Proof. intros. unfold domainkey. rewrite putdom_lower_nn, putrevdom_lower_nn. reflexivity. Qed.
 
 Lemma putdom_lower_ne : forall x y, ne_labels x = ne_labels y -> putdom (to_lower o x) = putdom (to_lower o y).
 Proof.
@@ -589,4 +595,4 @@ Proof.
   - rewrite putdom_lower_nn, putrevdom_lower_nn. reflexivity.
 Qed.
 
-End Names.
+End Lower.
